@@ -10,6 +10,15 @@ use serde_json::Value;
 
 pub struct C02;
 
+fn has_integer_beyond_i64(v: &Value) -> bool {
+    match v {
+        Value::Number(n) => n.is_u64() && !n.is_i64(),
+        Value::Array(a) => a.iter().any(has_integer_beyond_i64),
+        Value::Object(o) => o.values().any(has_integer_beyond_i64),
+        _ => false,
+    }
+}
+
 impl Property for C02 {
     fn id(&self) -> &'static str {
         "C02"
@@ -43,6 +52,13 @@ impl Property for C02 {
             *j.counters.entry("instances".into()).or_default() += 1;
             match valid {
                 Some(true) => {
+                    // a mutation can move a value that only `format: uint64` admits to a position
+                    // typed by a plain `integer` (read as i64, the documented default): such
+                    // instances are outside the fragment's instance domain
+                    if p.tag.starts_with("mutant") && has_integer_beyond_i64(&p.arg) {
+                        *j.counters.entry("skipped_mutant_moves_u64_value".into()).or_default() += 1;
+                        continue;
+                    }
                     *j.counters.entry("instances_valid".into()).or_default() += 1;
                     if structured(&p.arg) || p.tag.starts_with("mutant") {
                         nontrivial += 1;
